@@ -52,6 +52,68 @@ fn diag_present(src: &str, want_index: bool) -> Result<bool, String> {
     Ok(n > 0)
 }
 
+/// does the checker accept the program (no diagnostic of any kind)?
+fn accepted(src: &str) -> Result<bool, String> {
+    match diag_present(src, false) {
+        Ok(false) => Ok(true),
+        Ok(true) => Ok(false),
+        Err(e) if e.contains("other diagnostics") => Ok(false),
+        Err(e) => Err(e),
+    }
+}
+
+/// C11, checker half: "accepted only if it names only variants of that type, names each at most
+/// once, and either names all of them or has a default arm" -- every sequence of at most N arms
+/// over the variants of an enum (plus a name that is no variant), with and without a default arm
+fn switch_mode(thorough: bool) {
+    let names = ["A", "B", "C", "Z"];          // Z is not a variant
+    let max_arms = if thorough { 5 } else { 4 };
+    let scrutinees: Vec<(&str, &str)> = vec![
+        ("enum", "E :: enum { A, B: i32, C: str };\nmain :: () { e : E = E.A; switch x in e { {ARMS} } }"),
+        ("distinct enum", "E :: enum { A, B: i32, C: str };\nD :: distinct E;\nmain :: () { e : D = D.(E.A); switch x in e { {ARMS} } }"),
+    ];
+    let mut runs = 0u64;
+    for (sname, tmpl) in &scrutinees {
+        for k in 0..=max_arms {
+            let total = names.len().pow(k as u32);
+            for code in 0..total {
+                let mut arms = Vec::new();
+                let mut c = code;
+                for _ in 0..k { arms.push(names[c % names.len()]); c /= names.len(); }
+                for default in [false, true] {
+                    let mut text: Vec<String> = arms.iter().map(|n| format!(".{} => {{}}", n)).collect();
+                    if default { text.push("_ => {}".to_string()); }
+                    let src = tmpl.replace("{ARMS}", &text.join(", "));
+                    runs += 1;
+                    let only_variants = arms.iter().all(|n| *n != "Z");
+                    let mut sorted = arms.clone(); sorted.sort(); sorted.dedup();
+                    let no_dups = sorted.len() == arms.len();
+                    let covers = ["A", "B", "C"].iter().all(|v| arms.contains(v));
+                    let expect_ok = only_variants && no_dups && (covers || default);
+                    let src2 = src.clone();
+                    match std::thread::spawn(move || accepted(&src2)).join() {
+                        Ok(Ok(got)) => {
+                            if got != expect_ok {
+                                println!("MISMATCH {}: switch with arms [{}]{} is {} (program: {})", sname, arms.join(", "), if default { " and a default arm" } else { "" },
+                                         if got { "accepted although it must be rejected" } else { "rejected although it names each variant at most once and covers the type" }, src.replace('\n', " "));
+                                println!("SUMMARY mode=switch scrutinees={} max_arms={} runs={} mismatches=1", scrutinees.len(), max_arms, runs);
+                                std::process::exit(1);
+                            }
+                        }
+                        Ok(Err(e)) => { if k == 0 && !default { println!("SKIPPED scrutinee `{}`: {}", sname, e); } }
+                        Err(_) => {
+                            println!("MISMATCH {}: the checker panicked on: {}", sname, src.replace('\n', " "));
+                            println!("SUMMARY mode=switch scrutinees={} max_arms={} runs={} mismatches=1", scrutinees.len(), max_arms, runs);
+                            std::process::exit(1);
+                        }
+                    }
+                }
+            }
+        }
+    }
+    println!("SUMMARY mode=switch scrutinees={} max_arms={} runs={} mismatches=0", scrutinees.len(), max_arms, runs);
+}
+
 /// C10, last clause: "a literal index that is out of range for a fixed-size array is rejected
 /// at compile time" -- every array length x literal index x way of reaching the array
 fn index_mode(thorough: bool) {
@@ -102,6 +164,10 @@ fn index_mode(thorough: bool) {
 
 fn main() {
     std::panic::set_hook(Box::new(|_| {}));
+    if std::env::args().nth(1).map(|s| s == "switch").unwrap_or(false) {
+        switch_mode(std::env::args().nth(2).map(|s| s == "thorough").unwrap_or(false));
+        return;
+    }
     if std::env::args().nth(1).map(|s| s == "index").unwrap_or(false) {
         index_mode(std::env::args().nth(2).map(|s| s == "thorough").unwrap_or(false));
         return;
